@@ -2183,6 +2183,10 @@ impl CommandParser {
         }
         let seconds = Self::extract_string(&frames[2])?.parse::<u64>()
             .map_err(|_| FerrousError::Command(CommandError::InvalidIntegerValue))?;
+        // as the direct command: the expire time must be positive
+        if seconds == 0 {
+            return Err(FerrousError::Command(CommandError::Generic("invalid expire time in 'setex' command".to_string())));
+        }
         Ok(StringCommand::SetEx {
             key: Self::extract_bytes(&frames[1])?,
             value: Self::extract_bytes(&frames[3])?,
@@ -2196,6 +2200,10 @@ impl CommandParser {
         }
         let milliseconds = Self::extract_string(&frames[2])?.parse::<u64>()
             .map_err(|_| FerrousError::Command(CommandError::InvalidIntegerValue))?;
+        // as the direct command: the expire time must be positive
+        if milliseconds == 0 {
+            return Err(FerrousError::Command(CommandError::Generic("invalid expire time in 'psetex' command".to_string())));
+        }
         Ok(StringCommand::PSetEx {
             key: Self::extract_bytes(&frames[1])?,
             value: Self::extract_bytes(&frames[3])?,
